@@ -56,11 +56,11 @@ func (r LineNodeData) Process() ([]trs.TRS, error) {
 	end := r.End.Value()
 
 	if times == 1 {
-		LineExlusive(start, end, 1)
+		return LineExlusive(start, end, 1), nil
 	}
 
 	if times == 2 {
-		Line(start, end, 0)
+		return Line(start, end, 0), nil
 	}
 
 	return Line(start, end, times-2), nil
